@@ -43,9 +43,22 @@ type plan struct {
 }
 
 type bctx struct {
-	n   *node
-	c   *conn
-	rng *mrand.Rand
+	n     *node
+	c     *conn
+	rng   *mrand.Rand
+	mode  int // how this step's writes are split into reads of the node (splitChunk)
+	limit time.Duration
+}
+
+// send writes x to the node in the pieces of the step's split mode (used by the classes that also have to read).
+func (b *bctx) send(x []byte) error {
+	for _, part := range splitChunk(x, b.mode) {
+		b.c.cli.SetWriteDeadline(time.Now().Add(20 * time.Second))
+		if _, err := b.c.cli.Write(part); err != nil {
+			return err
+		}
+	}
+	return nil
 }
 
 func raw(length uint32, body []byte) []byte {
@@ -155,8 +168,7 @@ func hsGoodRun(b *bctx, st *hsState, trailing []byte) error {
 	if st == nil {
 		st = b.makeAuthReq(key)
 	}
-	b.c.cli.SetWriteDeadline(time.Now().Add(20 * time.Second))
-	if _, err := b.c.cli.Write(b.eciesToNode(append(enc(st.req), trailing...))); err != nil {
+	if err := b.send(b.eciesToNode(append(enc(st.req), trailing...))); err != nil {
 		return fmt.Errorf("write auth request: %v", err)
 	}
 	body := b.c.waitFrame(20 * time.Second)
@@ -321,8 +333,7 @@ func ohsGood(trailing []byte) func(b *bctx) error {
 		if err != nil {
 			return err
 		}
-		b.c.cli.SetWriteDeadline(time.Now().Add(20 * time.Second))
-		if _, err := b.c.cli.Write(b.respTo(append(enc(resp), trailing...))); err != nil {
+		if err := b.send(b.respTo(append(enc(resp), trailing...))); err != nil {
 			return fmt.Errorf("write auth response: %v", err)
 		}
 		b.c.aes = key
